@@ -210,6 +210,27 @@ func init() {
 			fail("merge.go: (*File).GetMergeCells")
 		}
 		fmt.Fprintf(w, "def getMergeCellsInPlace : Bool := %s\n", c04bool(mentions("File", "GetMergeCells", "f.mergeOverlapCells(ws)")))
+		// loadStringItems decodes every <si> into a fresh target declared inside the loop
+		freshSI, seenLSI := false, false
+		if fd := funcDecl("File", "loadStringItems"); fd != nil {
+			seenLSI = true
+			ast.Inspect(fd.Body, func(x ast.Node) bool {
+				if is, ok := x.(*ast.IfStmt); ok && strings.Contains(c04norm(src(is.Cond)), `inElement == "si"`) {
+					for _, st := range is.Body.List {
+						if as, ok := st.(*ast.AssignStmt); ok && as.Tok == token.DEFINE && len(as.Lhs) == 1 && len(as.Rhs) == 1 {
+							if _, ok := as.Rhs[0].(*ast.CompositeLit); ok && c04norm(src(as.Rhs[0])) == "xlsxSI{}" {
+								freshSI = true
+							}
+						}
+					}
+				}
+				return true
+			})
+		}
+		if !seenLSI {
+			fail("rows.go: (*File).loadStringItems")
+		}
+		fmt.Fprintf(w, "def sharedStringItemFresh : Bool := %s\n", c04bool(freshSI))
 		fmt.Fprintf(w, "def getRowsReturnsMaxRows : Bool := %s\n", c04bool(mentions("File", "GetRows", "err == ErrMaxRows") && mentions("File", "GetRows", "rows.Error()")))
 		fmt.Fprintf(w, "def checkSheetBoundsRows : Bool := %s\n", c04bool(mentions("xlsxWorksheet", "checkSheet", "r.R > TotalRows")))
 		fmt.Fprintf(w, "def checkRowSizesByGreatest : Bool := %s\n", c04bool(mentions("xlsxWorksheet", "checkRow", "colNum > lastCol")))
@@ -237,7 +258,8 @@ func c04SharedWrites() []string {
 				continue
 			}
 			n := fd.Name.Name
-			if !(strings.HasPrefix(n, "Get") || n == "Rows" || n == "Cols" || n == "SearchSheet") || !token.IsExported(n) {
+			// the exported read functions and the unexported helper whose closure reads formulas
+			if !((strings.HasPrefix(n, "Get") || n == "Rows" || n == "Cols" || n == "SearchSheet") && token.IsExported(n)) && n != "getCellFormula" {
 				continue
 			}
 			fresh := map[string]bool{}
